@@ -1402,7 +1402,7 @@ Example C08_example_content :
   | Some tok, Some blk => resolve_block (sym_extend (tk_symbols tok) (db_symbols blk)) blk = blk_two
   | _, _ => False
   end.
-Proof. repeat split; vm_compute; reflexivity. Qed.
+Proof. split; [vm_compute; reflexivity|]. split; vm_compute; reflexivity. Qed.
 
 (* Build twice on one block builder: the builder's table was replaced by the
    split-off part (builder.go blockBuilder.Build), so the second Build either
@@ -1419,7 +1419,7 @@ Theorem C08_rebuild_refuted :
         [{| p_name := invalid_symbol 1026; p_terms := [TA (AInt 1)] |}]
   | _, _, _ => False
   end.
-Proof. repeat split; vm_compute; reflexivity. Qed.
+Proof. do 4 (split; [vm_compute; reflexivity|]). vm_compute. split; [reflexivity|]. split; reflexivity. Qed.
 
 (* non-vacuity of the hypotheses of the C07 theorems, on the same objects *)
 Definition ex_ops0 : list bop := [BFact f1; BFact f2; BFact f1].
@@ -1522,7 +1522,7 @@ Example unmarshal_redeclared_symbol_diverges :
   | Ok vs => map (fun v => map p_name (b_facts (fst (fst v)))) vs = [[]; [[97]]]
   | _ => False
   end.
-Proof. split; vm_compute; split; reflexivity || reflexivity. Qed.
+Proof. split; vm_compute; [split|]; reflexivity. Qed.
 
 (* ------------------------------------------------------------------ *)
 Print Assumptions builder_content.
@@ -1550,3 +1550,154 @@ Print Assumptions C08_siblings.
 Print Assumptions C08_rebuild_refuted.
 Print Assumptions C07_build_nonvacuous.
 Print Assumptions C07_append_nonvacuous.
+
+(* ------------------------------------------------------------------ *)
+(** * 6. Go's Equal on indexes is Equal on contents
+
+   FactSet.Insert / GetBlockID compare D-level predicates by index; under a
+   well-formed table and on closed values this is the S-level Predicate.Equal of
+   the resolved values.  Hence the builders' duplicate test is the S-level one,
+   and the supplied content has a description that does not mention indexes. *)
+
+Section EqualCorr.
+  Variable t : table.
+  Hypothesis W : table_wf t.
+
+  Lemma str_eqb x y : valid_index t x -> valid_index t y -> bytes_eqb (sym_str t x) (sym_str t y) = N.eqb x y.
+  Proof.
+    intros Hx Hy. destruct (N.eqb_spec x y) as [->|Ne]; [apply bytes_eqb_refl|].
+    destruct (bytes_eqb (sym_str t x) (sym_str t y)) eqn:E; [|reflexivity].
+    apply bytes_eqb_eq in E. exfalso. apply Ne. eapply sym_str_inj; eassumption.
+  Qed.
+
+  Lemma datom_eqb_resolve a b : closed_atom t a -> closed_atom t b ->
+    atom_eqb (resolve_atom t a) (resolve_atom t b) = datom_eqb a b.
+  Proof.
+    destruct a, b; cbn [closed_atom resolve_atom atom_eqb datom_eqb]; intros Ha Hb; try reflexivity;
+      apply str_eqb; assumption.
+  Qed.
+
+  Lemma existsb_ext_Forall {A} (f g : A -> bool) l : Forall (fun x => f x = g x) l -> existsb f l = existsb g l.
+  Proof. induction 1 as [|x l Hx Hl IH]; cbn [existsb]; [reflexivity | rewrite Hx, IH; reflexivity]. Qed.
+  Lemma forallb_ext_Forall {A} (f g : A -> bool) l : Forall (fun x => f x = g x) l -> forallb f l = forallb g l.
+  Proof. induction 1 as [|x l Hx Hl IH]; cbn [forallb]; [reflexivity | rewrite Hx, IH; reflexivity]. Qed.
+  Lemma existsb_map {A B} (f : B -> bool) (g : A -> B) l : existsb f (map g l) = existsb (fun x => f (g x)) l.
+  Proof. induction l as [|x l IH]; cbn [map existsb]; [reflexivity | rewrite IH; reflexivity]. Qed.
+  Lemma forallb_map {A B} (f : B -> bool) (g : A -> B) l : forallb f (map g l) = forallb (fun x => f (g x)) l.
+  Proof. induction l as [|x l IH]; cbn [map forallb]; [reflexivity | rewrite IH; reflexivity]. Qed.
+
+  Lemma dset_equal_resolve s c : Forall (closed_atom t) s -> Forall (closed_atom t) c ->
+    set_equal (map (resolve_atom t) s) (map (resolve_atom t) c) = dset_equal s c.
+  Proof.
+    intros Hs Hc. unfold set_equal, dset_equal. rewrite !map_length. f_equal.
+    rewrite forallb_map. apply forallb_ext_Forall. eapply Forall_imp; [|exact Hs]. intros a Ha.
+    unfold set_contains. rewrite existsb_map. apply existsb_ext_Forall.
+    eapply Forall_imp; [|exact Hc]. intros b Hb. apply datom_eqb_resolve; assumption.
+  Qed.
+
+  Lemma dterm_geqb_resolve a b : closed_term t a -> closed_term t b ->
+    term_eqb (resolve_term t a) (resolve_term t b) = dterm_geqb a b.
+  Proof.
+    destruct a as [a|s], b as [b|c]; cbn [closed_term resolve_term term_eqb dterm_geqb]; intros Ha Hb;
+      try reflexivity; [apply datom_eqb_resolve | apply dset_equal_resolve]; assumption.
+  Qed.
+
+  Lemma dterms_geqb_resolve l1 : forall l2, Forall (closed_term t) l1 -> Forall (closed_term t) l2 ->
+    list_eqb term_eqb (map (resolve_term t) l1) (map (resolve_term t) l2) = list_eqb dterm_geqb l1 l2.
+  Proof.
+    induction l1 as [|a l1 IH]; intros [|b l2] H1 H2; cbn [map list_eqb]; try reflexivity.
+    inversion H1; inversion H2; subst. rewrite dterm_geqb_resolve, IH by assumption. reflexivity.
+  Qed.
+
+  Lemma dpred_geqb_resolve p q : closed_pred t p -> closed_pred t q ->
+    pred_eqb (resolve_pred t p) (resolve_pred t q) = dpred_geqb p q.
+  Proof.
+    intros [P1 P2] [Q1 Q2]. unfold pred_eqb, dpred_geqb, resolve_pred. cbn [p_name p_terms].
+    rewrite str_eqb, dterms_geqb_resolve by assumption. reflexivity.
+  Qed.
+
+  Lemma dfact_in_resolve d fs : closed_pred t d -> Forall (closed_pred t) fs ->
+    fact_in (resolve_pred t d) (map (resolve_pred t) fs) = dfact_in d fs.
+  Proof.
+    intros Hd Hfs. unfold fact_in, dfact_in. rewrite existsb_map. apply existsb_ext_Forall.
+    eapply Forall_imp; [|exact Hfs]. intros g Hg. apply dpred_geqb_resolve; assumption.
+  Qed.
+End EqualCorr.
+
+(* the supplied content, without indexes: FactSet.Insert on contents *)
+Definition content_step_S (c : block) (o : bop) : block :=
+  content_step c o (match o with BFact f => negb (fact_in f (b_facts c)) | _ => true end).
+Definition supplied_S (ops : list bop) : block := fold_left content_step_S ops empty_block.
+
+Lemma core_step_accepts k o k' acc c :
+  core_step k o = (k', acc) -> table_wf (k_syms k) -> small_table (k_syms k') -> core_inv k c ->
+  content_step c o acc = content_step_S c o.
+Proof.
+  destruct k as [t fs rs cs]. unfold content_step_S.
+  destruct o as [f|r|c0|s]; cbn [core_step k_syms k_facts k_rules k_checks]; intros H Wt Hs I.
+  - destruct (intern_pred t f) as [t1 d] eqn:E. destruct (good_pred _ _ _ _ E) as ([l P] & W & R).
+    assert (Et : k_syms k' = t1) by (destruct (dfact_in d fs); apply pair_inj in H as [<- _]; reflexivity).
+    rewrite Et in Hs. assert (Hs0 : small_table t) by (rewrite P in Hs; eapply small_table_app; exact Hs).
+    destruct (I Hs0) as [(C1 & _ & _) Q]. cbn [k_syms k_facts] in C1. destruct (R Hs) as [Cd Qd].
+    destruct (stable_list _ _ stable_pred t l _ C1) as [C1' Q1]. cbv beta in Q1. rewrite <- P in C1', Q1.
+    assert (Ef : b_facts c = map (resolve_pred t1) fs) by (rewrite <- Q, Q1; reflexivity).
+    assert (X : fact_in f (map (resolve_pred t1) fs) = dfact_in d fs).
+    { rewrite <- Qd. apply dfact_in_resolve; [exact (W Wt) | exact Cd | exact C1']. }
+    rewrite Ef, X.
+    destruct (dfact_in d fs); apply pair_inj in H as [_ <-]; reflexivity.
+  - destruct (intern_rule t r). apply pair_inj in H as [_ <-]. reflexivity.
+  - destruct (intern_check t c0). apply pair_inj in H as [_ <-]. reflexivity.
+  - apply pair_inj in H as [_ <-]. reflexivity.
+Qed.
+
+Lemma core_exec_S ops : forall k c k' c',
+  core_exec k c ops = (k', c') -> table_wf (k_syms k) -> small_table (k_syms k') -> core_inv k c ->
+  c' = fold_left content_step_S ops c.
+Proof.
+  induction ops as [|o ops IH]; intros k c k' c' H Wt Hs I; cbn [core_exec fold_left] in *.
+  - apply pair_inj in H as [_ <-]. reflexivity.
+  - destruct (core_step k o) as [k1 acc] eqn:E. destruct (core_step_spec _ _ _ _ E) as (_ & W1 & I1).
+    destruct (core_exec_spec _ _ _ _ _ H) as ([l2 P2] & _ & _).
+    assert (Hs1 : small_table (k_syms k1)) by (rewrite P2 in Hs; eapply small_table_app; exact Hs).
+    rewrite <- (core_step_accepts _ _ _ _ c E Wt Hs1 I). apply (IH _ _ _ _ H (W1 Wt) Hs (I1 _ I)).
+Qed.
+
+(* what a builder over [base] was supplied with is determined by the calls alone:
+   the base table, and every index, have disappeared from the description *)
+Theorem supplied_is_S base ops :
+  table_wf base -> small_table (k_syms (fst (core_exec (core_of_table base) empty_block ops))) ->
+  supplied base ops = supplied_S ops.
+Proof.
+  intros Wb Hs. unfold supplied, supplied_S.
+  destruct (core_exec (core_of_table base) empty_block ops) as [k c] eqn:E. cbn [fst snd] in *.
+  apply (core_exec_S _ _ _ _ _ E Wb Hs (core_inv_init base)).
+Qed.
+
+Lemma bu_exec_syms base rid ops :
+  bu_syms (bu_exec (new_builder base rid) ops) = k_syms (fst (core_exec (core_of_table base) empty_block ops)).
+Proof.
+  destruct (bu_exec_core ops (new_builder base rid) empty_block) as (E1 & _).
+  change (bu_core (new_builder base rid)) with (core_of_table base) in E1. rewrite <- E1. reflexivity.
+Qed.
+Lemma bb_exec_syms base ops :
+  bb_syms (bb_exec (new_bbuilder base) ops) = k_syms (fst (core_exec (core_of_table base) empty_block ops)).
+Proof.
+  destruct (bb_exec_core ops (new_bbuilder base) empty_block) as (E1 & _).
+  change (bb_core (new_bbuilder base)) with (core_of_table base) in E1. rewrite <- E1. reflexivity.
+Qed.
+
+Corollary supplied_builder base rid ops :
+  table_wf base -> small_table (bu_syms (bu_exec (new_builder base rid) ops)) -> supplied base ops = supplied_S ops.
+Proof. intros Wb Hs. rewrite bu_exec_syms in Hs. apply supplied_is_S; assumption. Qed.
+Corollary supplied_bbuilder base ops :
+  table_wf base -> small_table (bb_syms (bb_exec (new_bbuilder base) ops)) -> supplied base ops = supplied_S ops.
+Proof. intros Wb Hs. rewrite bb_exec_syms in Hs. apply supplied_is_S; assumption. Qed.
+
+Example supplied_S_example :
+  supplied_S ex_ops0 = blk_auth /\ supplied_S ex_ops1 = blk_one /\
+  supplied_S [BFact h1; BContext [1]; BFact h2; BFact h1] = blk_two.
+Proof. repeat split; vm_compute; reflexivity. Qed.
+
+Print Assumptions dpred_geqb_resolve.
+Print Assumptions dfact_in_resolve.
+Print Assumptions supplied_is_S.
